@@ -32,7 +32,23 @@ class InvProp(Prop):
             return verdict('discard', [], c, dig, discard=kind[8:], sim_seconds=sims, sample=world.summary(scn))
         viol = self.oracle(scn, out, c)
         nt = self.nontrivial(scn, out, c)
-        return verdict('violation' if viol else 'ok', viol, c, dig, nontrivial=nt, sim_seconds=sims,
+        nruns = 1
+        if not viol and scn.get('edits'):
+            # run / edit / reset / rerun: the oracle is evaluated again on the second run against the edited scenario
+            r = e1.edit_and_rerun(scn)
+            nruns += 2
+            if r is not None:
+                second, s2 = r
+                bump(c, 'fired.rerun_after_model_edit')
+                if second.exc is None and second.tables is not None and second.tables.error_code is None:
+                    v2 = self.oracle(s2, second, c)
+                    for x in v2:
+                        x['oracle'] = x['oracle'] + '.after_edit'
+                        x['detail'] = 'after edits %r: %s' % ([e_['kind'] for e_ in scn['edits']], x['detail'])
+                    viol = v2
+                else:
+                    bump(c, 'rerun_after_edit_nonconverged')
+        return verdict('violation' if viol else 'ok', viol, c, dig, nontrivial=nt, sim_seconds=sims, runs=nruns,
                        ngrams=ngrams(event_kinds(out.rec, scn)), sample=world.summary(scn))
 
     def attribute_exception(self, scn, out, v):
@@ -75,6 +91,8 @@ class C01(InvProp):
         if rng.chance(0.25):
             gen.add_level_controls(rng, scn, rng.irange(1, 2))
         e1.add_faults(rng, scn)
+        if rng.chance(0.2):
+            scn['edits'] = e1.gen_edits(rng, scn)
         return scn
 
     def oracle(self, scn, out, c):
